@@ -279,7 +279,7 @@ def check_tls(eng, run):
             if not arg_ok:
                 run.finding("C12.tls", fn, _stmt_at(fn, node.lineno), "the BIO read and the transport write are not one expression under the lock (a suspension between them reorders records)")
             run.ob("C12.tls", f"{fn.short}:wire-write@{node.lineno - fn.lineno}", ok and arg_ok)
-    run.floor("C12.tls wire writes", n_wire, 3)
+    run.floor("C12.tls wire writes", n_wire, 1)
 
 
 def check_fifo(eng, run):
